@@ -590,6 +590,16 @@ def r7_function_types(repo):
     return obs
 
 
+def r9_variance(repo):
+    """containment is decided by is_covariant() / is_contravariant() of the governing variance"""
+    return kernel.variance_table(repo, "C06-R9")
+
+
+def r10_kinds(repo):
+    """the judgement is a case analysis by kind predicates"""
+    return kernel.kind_table(repo, "C06-R10")
+
+
 def rules():
     return [
         RuleSpec("C06-R1", "containment direction per governing variance (every return)", 10, r1_containment),
@@ -600,6 +610,8 @@ def rules():
         RuleSpec("C06-R7", "declared variance of the built-in function types", 5, r7_function_types),
         RuleSpec("C06-R5", "equality of types is structural (is_subtype starts from ==)", 6, r5_structural_equality),
         RuleSpec("C06-R8", "type constructors store their arguments as given", 10, r8_constructors),
+        RuleSpec("C06-R9", "the three variance objects answer their own predicates (and print their keyword)", 4, r9_variance),
+        RuleSpec("C06-R10", "each class of the type representation answers exactly its own kind predicate", 28, r10_kinds),
     ]
 
 
@@ -685,9 +697,30 @@ def _t_rename(tree):
     V.rename_local(f, "is_wildcard2", "w2")
 
 
+def _v_contra_is_one(tree):
+    f = V.find_def(tree, "Variance.is_contravariant")
+    r = V.one([n for n in ast.walk(f) if isinstance(n, ast.Return)])
+    r.value = V.parse_expr("self.value == 1")
+
+
+def _v_tparam_eq_no_variance(tree):
+    f = V.find_def(tree, "TypeParameter.__eq__")
+    b = V.one([n for n in ast.walk(f) if isinstance(n, ast.BoolOp)])
+    b.values = [v for v in b.values if "variance" not in ast.unparse(v)]
+
+
+def _v_wild_ctor_flattens(tree):
+    f = V.find_def(tree, "WildCardType.__init__")
+    st = V.one([n for n in ast.walk(f) if isinstance(n, ast.Assign) and ast.unparse(n.targets[0]) == "self.bound"])
+    V.insert_before(tree, st, V.parse_stmts("if bound is not None and bound.is_wildcard():\n    bound = bound.bound"))
+
+
 def variants():
     t = "src/ir/types.py"
     return [
+        V.Variant("is_contravariant answers for the covariant constant", "src/ir/types.py", _v_contra_is_one, {"C06-R9"}),
+        V.Variant("TypeParameter.__eq__ ignores the variance", "src/ir/types.py", _v_tparam_eq_no_variance, {"C06-R5"}),
+        V.Variant("WildCardType's constructor flattens a projected bound", "src/ir/types.py", _v_wild_ctor_flattens, {"C06-R8"}),
         V.Variant("covariant branch asks other.is_subtype(t)", t, _v_cov_reversed, {"C06-R1"}),
         V.Variant("contravariant projection compared forward", t, _v_wild_contra_forward, {"C06-R1"}),
         V.Variant("any wildcard target accepted like a star", t, _v_star_for_any, {"C06-R1"}),
